@@ -138,7 +138,7 @@ fn suite(n: u32, codes: &[usize], order: &[u32], ite_step: usize, rep: &mut Repo
 pub fn run(cfg: &Cfg) -> i32 {
     let start = Instant::now();
     let checks = Checks { canon: true, structure: true, rc: false, node_count: true };
-    if let Some(path) = &cfg.replay {
+    if let Some(path) = cfg.replay.as_ref().filter(|p| replay_case_is(p, |c| c["ops"].is_array() && c["cfg"].is_object())) {
         let v: serde_json::Value = serde_json::from_str(&std::fs::read_to_string(path).expect("replay file")).expect("json");
         return match vreplay::<TddK>(&v["case"], checks) {
             Ok(_) => {
@@ -154,6 +154,16 @@ pub fn run(cfg: &Cfg) -> i32 {
     let mut jobs: Vec<Box<dyn FnMut(&mut dyn Write) + '_>> = vec![];
     let mut names = vec![];
     // all 27 one-variable functions: complete
+    {
+        let seed = mix(cfg.seed ^ 0xc11_700);
+        let cases = cfg.t(600, 8000);
+        names.push("wide-eval".into());
+        jobs.push(Box::new(move |w: &mut dyn Write| {
+            let mut rep = Report::default();
+            crate::c02w::wide_val::<TddK>("C11", seed, cases, &mut rep);
+            rep.emit(w);
+        }));
+    }
     names.push("n1".into());
     jobs.push(Box::new(|w: &mut dyn Write| {
         let mut rep = Report::default();
@@ -205,7 +215,7 @@ pub fn run(cfg: &Cfg) -> i32 {
         &total,
         Meta {
             level: "exploration",
-            rule: "all 27 one-variable three-valued functions: all pairs x {and,or,nand,nor,xor,equiv,imp,imp_strict}, all 27^3 ite triples, not, constants f/t/u, var, cofactors (true/unknown/false child order), eval on all 3^n assignments (complete). Seeded samples of the 3^9 two-variable functions (always including the three constants) under both variable orders: all pairs x 8 connectives, strided ite triples. proptest histories over 1..3 variables with table comparison, canonicity and structure audit after every step. Oracle: Kleene strong not/and/or, Lukasiewicz imp/equiv, xor = not equiv, imp_strict(a,b) = not imp(b,a), ite as stated in the property, written out literally in the harness. Non-trivial = tuple containing a non-constant function that takes the value unknown somewhere.",
+            rule: "all 27 one-variable three-valued functions: all pairs x {and,or,nand,nor,xor,equiv,imp,imp_strict}, all 27^3 ite triples, not, constants f/t/u, var, cofactors (true/unknown/false child order), eval on all 3^n assignments (complete). Seeded samples of the 3^9 two-variable functions (always including the three constants) under both variable orders: all pairs x 8 connectives, strided ite triples. proptest histories over 1..3 variables with table comparison, canonicity and structure audit after every step. Oracle: Kleene strong not/and/or, Lukasiewicz imp/equiv, xor = not equiv, imp_strict(a,b) = not imp(b,a), ite as stated in the property, written out literally in the harness. Non-trivial = tuple containing a non-constant function that takes the value unknown somewhere. Wide managers: 9..200 variables (incl. 63/64/65/127/128/129) under random orders, random expressions over <= 4 variables that include the bottom level, block-boundary levels and the largest variable number; eval() with shuffled complete argument lists, repeated variables (the last value counts), and lists omitting a support variable (documented default: unknown) must give the expression's value under the model.",
             assumptions: vec!["harness is built with oxidd's `tdd` feature (off by default in the workspace test run)".into()],
             extra: json!({}),
         },
